@@ -78,6 +78,18 @@ class Unit:
     def process(self, tpl_path):
         with open(tpl_path) as f:
             tl = f.read().split('\n')
+        # `//@splice PATH`: textual inclusion of a shared contract (the SAME text is used where the
+        # contract is assumed, at a call site's stand-in, and where it is proved, on the real function)
+        exp = []
+        for ln in tl:
+            sm = re.match(r'\s*//@splice\s+(\S+)', ln)
+            if sm:
+                exp.extend(open(os.path.join(self.root, sm.group(1))).read().rstrip('\n').split('\n'))
+                self.spliced = getattr(self, 'spliced', [])
+                self.spliced.append(sm.group(1))
+            else:
+                exp.append(ln)
+        tl = exp
         rel_tpl = os.path.relpath(tpl_path, self.root)
         i = 0
         while i < len(tl):
